@@ -30,6 +30,9 @@ pub(crate) struct Mock {
     /// what `write` answers: >=0 => Ok(min(k, len)); -1 Interrupted; -2 WouldBlock; -3 BrokenPipe
     pub write_answer: isize,
     pub last_write_len: usize,
+    /// how many more calls are answered `Interrupted` when write_answer == -1 (then: everything
+    /// accepted) - a retry loop around an interrupted write must terminate to be observable
+    pub eintr_budget: usize,
     /// byte of the last written buffer at WATCHW (if in range)
     pub last_write_watch: u8,
     pub watchw: usize,
@@ -48,6 +51,7 @@ impl Mock {
             write_calls: 0,
             write_answer: 0,
             last_write_len: 0,
+            eintr_budget: 1,
             last_write_watch: 0,
             watchw: 0,
         }
@@ -75,7 +79,11 @@ impl Write for Mock {
             0
         };
         match self.write_answer {
-            -1 => Err(std::io::Error::from(std::io::ErrorKind::Interrupted)),
+            -1 if self.eintr_budget == 0 => Ok(buf.len()),
+            -1 => {
+                self.eintr_budget -= 1;
+                Err(std::io::Error::from(std::io::ErrorKind::Interrupted))
+            }
             -2 => Err(std::io::Error::from(std::io::ErrorKind::WouldBlock)),
             -3 => Err(std::io::Error::from(std::io::ErrorKind::BrokenPipe)),
             k => Ok(std::cmp::min(k as usize, buf.len())),
@@ -233,7 +241,7 @@ fn is_parse_err<T>(r: &Result<T, ConnectionError>) -> bool {
 // ---------------------------------------------------------------------------------------------
 // F-contract: parse_request_line
 // ---------------------------------------------------------------------------------------------
-// @harness props=C01,C02,C04 props_thorough=C03 tiers=quick:B=8;thorough:B=16 unwind=B+2 cap=1500 mem=4 covers=3
+// @harness props=C01,C02,C04 props_thorough=C03 tiers=quick:B=8;thorough:B=16 unwind=B+2 cap=1500 mem=2 covers=3
 // @fn HttpConnection::parse_request_line request::find HttpConnection::shift_buffer_left
 // @claim F-contract(request line): first CRLF at i => line parser called once on w[start..i), start'=i+2, state Headers, fresh pending request; no CRLF => InvalidRequest iff start==0 && end==B, else Ok(false), read_cursor=end-start and the bytes carried to offset 0; queues untouched
 // @bounds window B bytes, arbitrary contents, arbitrary 0<=start<=end<=B; request-line content parser replaced by the surrogate
@@ -303,7 +311,7 @@ fn resp_is_continue(r: &Response, v: Version) -> bool {
 // ---------------------------------------------------------------------------------------------
 // F-contract: parse_headers
 // ---------------------------------------------------------------------------------------------
-// @harness props=C01,C02,C04,C13 props_thorough=C03 tiers=quick:B=8;thorough:B=16 unwind=B+2 cap=1500 mem=4 covers=7
+// @harness props=C01,C02,C04,C13 props_thorough=C03 tiers=quick:B=8;thorough:B=16 unwind=B+2 cap=1500 mem=3 covers=7
 // @fn HttpConnection::parse_headers request::find HttpConnection::shift_buffer_left Response::new
 // @stubs std::string::String::from_utf8_lossy
 // @claim F-contract(headers): CRLF at start => end of headers: content_length 0 -> RequestReady; n>limit -> SizeLimitExceeded(limit,n) (full width n:u32, limit:usize); else WaitingForBody with counter n, empty body, exactly one 100-continue with the request's version iff expect; CRLF at i>start => header parser called once on w[start..i), fatal error propagated, UnsupportedValue ignored, start'=i+2; no CRLF => header SizeLimitExceeded iff start==0 && end==B else carried to offset 0
@@ -482,7 +490,7 @@ fn fc_body_case(have: usize, avail: usize, todo_c: Option<u32>, start_c: Option<
     std::mem::forget(conn);
 }
 
-// @harness props=C01,C02,C04 props_thorough=C03,C13 tiers=quick:B=8,K=0|B=8,K=1|B=8,K=3|B=8,K=8;thorough:B=16,K=0|B=16,K=1|B=16,K=2|B=16,K=5|B=16,K=8|B=16,K=15|B=16,K=16 unwind=B+5 cap=900 mem=4 covers=2
+// @harness props=C01,C02,C04 props_thorough=C03,C13 tiers=quick:B=8,K=0|B=8,K=1|B=8,K=3|B=8,K=8;thorough:B=16,K=0|B=16,K=1|B=16,K=2|B=16,K=5|B=16,K=8|B=16,K=15|B=16,K=16 unwind=B+5 cap=900 mem=2 covers=2
 // @fn HttpConnection::parse_body
 // @claim F-contract(body), extents: takes exactly min(counter, end-start) bytes; incomplete => length accumulated, counter reduced, window cleared, read_cursor 0; complete => start'=start+counter, body length == Content-Length, state RequestReady; queues untouched
 // @bounds window B bytes; K = end-start concrete per query, start arbitrary; counter arbitrary in 1..=K+3 (larger counters take the same path); no bytes accumulated before; byte contents are checked by fc_body_bytes
@@ -492,7 +500,7 @@ fn fc_body_0() {
     fc_body_case(0, crate::verif_params::K, None, None);
 }
 
-// @harness props=C01,C02 props_thorough=C03,C04 tiers=quick:B=8,K=2|B=8,K=8;thorough:B=16,K=0|B=16,K=3|B=16,K=16 unwind=B+5 cap=900 mem=4 covers=2
+// @harness props=C01,C02 props_thorough=C03,C04 tiers=quick:B=8,K=2|B=8,K=8;thorough:B=16,K=0|B=16,K=3|B=16,K=16 unwind=B+5 cap=900 mem=2 covers=2
 // @fn HttpConnection::parse_body
 // @claim as fc_body_0 with 2 symbolic bytes already accumulated by earlier reads
 // @bounds as fc_body_0; 2 bytes accumulated before
@@ -502,7 +510,7 @@ fn fc_body_2() {
     fc_body_case(2, crate::verif_params::K, None, None);
 }
 
-// @harness props=C01,C02 props_thorough=C03 tiers=quick:B=8,M=0|B=8,M=1|B=8,M=2|B=8,M=3;thorough:B=16,M=0|B=16,M=1|B=16,M=2|B=16,M=3|B=16,M=4|B=16,M=5 unwind=B+5 cap=900 mem=4 covers=2
+// @harness props=C01,C02 props_thorough=C03 tiers=quick:B=8,M=0|B=8,M=1|B=8,M=2|B=8,M=3;thorough:B=16,M=0|B=16,M=1|B=16,M=2|B=16,M=3|B=16,M=4|B=16,M=5 unwind=B+5 cap=900 mem=2 covers=2
 // @fn HttpConnection::parse_body
 // @claim F-contract(body), contents: the accumulated / delivered body consists of exactly the window bytes [start, start+min(counter,avail)) after the bytes accumulated before, in order
 // @bounds concrete (already accumulated, avail, start, counter) tuples, one per query M: (0,3,1,2) (0,3,1,5) (2,B,0,B) (2,B-1,1,B+1) (0,1,B-1,1) (2,2,B-2,1); window contents and accumulated bytes symbolic
@@ -526,25 +534,23 @@ fn raw_fd_of(f: &File) -> RawFd {
     f.as_raw_fd()
 }
 
-// @harness props=C01,C12,C03 tiers=quick:B=8;thorough:B=16 unwind=B+2 cap=1500 mem=4 covers=4
+// @harness props=C01,C12,C03 tiers=quick:B=8;thorough:B=16 unwind=B+2 cap=1500 mem=10 covers=4
 // @fn HttpConnection::read_bytes HttpConnection::recv_with_fds
 // @claim F-read: exactly one receive, on buffer[read_cursor..]; chunk stored at [rc, rc+n), [0,rc) untouched, returns rc+n; 0 bytes => ConnectionClosed, stream error => StreamReadError, both leaving the parser state as it was; received descriptors are each wrapped once and appended in arrival order after the ones already held (also on the 0-byte read)
-// @bounds window B; read_cursor arbitrary < B; chunk arbitrary, length 0..=B (truncated to the iovec by the kernel contract); 0..=3 received descriptors with arbitrary numbers, 1 descriptor already held
+// @bounds window B; read_cursor arbitrary < B; chunk arbitrary, length 0..=B (truncated to the iovec by the kernel contract); 0..=3 received descriptors with arbitrary numbers 0..10^5 (0 included), 1 descriptor already held
 #[kani::proof]
 fn f_read() {
     set_surrogates(true);
     let mut conn = mk_conn(Shape::RL, 0);
     let w = conn.buffer;
     let rc = conn.read_cursor;
-    let held: RawFd = kani::any();
-    kani::assume(held >= 1000 && held < 100000);
+    let held: RawFd = any_fd();
     conn.files.push(unsafe { File::from_raw_fd(held) });
     let chunk: [u8; B] = kani::any();
     let n: usize = kani::any();
     kani::assume(n <= B);
     conn.stream.feed(chunk, n);
-    let fds: [RawFd; MAXFD] = kani::any();
-    kani::assume(fds[0] >= 1000 && fds[0] < 100000 && fds[1] >= 1000 && fds[1] < 100000 && fds[2] >= 1000 && fds[2] < 100000);
+    let fds: [RawFd; MAXFD] = [any_fd(), any_fd(), any_fd()];
     let nfds: usize = kani::any();
     kani::assume(nfds <= MAXFD);
     conn.stream.fds.set(fds);
@@ -647,7 +653,7 @@ fn ser_byte(id: usize, v: Version, j: usize) -> u8 {
     }
 }
 
-// @harness props=C06 props_thorough=C03 tiers=quick:N=5,M=1554|N=5,M=1596|N=5,M=1548|N=5,M=1668|N=5,M=1488|N=5,M=1332|N=5,M=1549|N=5,M=1584;thorough:N=5,M=1554|N=5,M=1596|N=5,M=1548|N=5,M=1668|N=5,M=1488|N=5,M=1332|N=5,M=1549|N=5,M=1362|N=5,M=1572|N=5,M=1584|N=5,M=1416|N=5,M=1764|N=5,M=1524|N=5,M=1512|N=5,M=222|N=5,M=3108|N=5,M=1530|N=5,M=1476|N=5,M=1344|N=5,M=1680|N=5,M=2232|N=5,M=1553|N=6,M=9108|N=6,M=10560 unwind=N+4 cap=1500 mem=4 covers=1
+// @harness props=C06 props_thorough=C03 tiers=quick:N=5,M=1554|N=5,M=1596|N=5,M=1548|N=5,M=1668|N=5,M=1488,MEM=7|N=5,M=1332|N=5,M=1549|N=5,M=1584,MEM=10;thorough:N=5,M=1554|N=5,M=1596|N=5,M=1548|N=5,M=1668|N=5,M=1488,MEM=7|N=5,M=1332|N=5,M=1549|N=5,M=1362|N=5,M=1572|N=5,M=1584,MEM=10|N=5,M=1416|N=5,M=1764|N=5,M=1524|N=5,M=1512|N=5,M=222|N=5,M=3108|N=5,M=1530|N=5,M=1476|N=5,M=1344|N=5,M=1680|N=5,M=2232|N=5,M=1553|N=6,M=9108|N=6,M=10560 unwind=N+4 cap=1500 mem=3 covers=1
 // @fn HttpConnection::try_write HttpConnection::enqueue_response HttpConnection::clear_write_buffer HttpConnection::pending_write
 // @claim history invariant, checked at every step of a sequence of N operations from a fresh connection (operation i is digit i of M in base 6: 0 enqueue_response, 1 try_write accepted completely, 2 try_write accepted partly (any 0 < k < remaining), 3 try_write answered Ok(0), 4 interrupted, 5 failing with EAGAIN or EPIPE): every write call passes the stream exactly the not-yet-accepted suffix of the oldest unsent response (length and an arbitrary byte), exactly one stream write per try_write, none when nothing is pending (InvalidWrite); Ok(k<len) keeps the rest, Ok(len) moves to the next response, EINTR changes nothing, Ok(0)/EAGAIN/EPIPE discard everything and report ConnectionClosed; pending_write() <=> something unsent
 // @bounds N operations with the operation kinds fixed per query (a symbolic kind makes the io::Error drop glue symbolic, which CBMC unwinds recursively) and k, the watched byte and the HTTP version symbolic; responses are identified by distinct status codes and serialized by a 6-byte stand-in instead of Response::write_all (the stand-in is selected by a flag in the dispatch hook; with the flag off the hook calls write_all on the same arguments)
@@ -697,6 +703,7 @@ fn c06_history() {
                 }
             };
             conn.stream.write_answer = ans;
+            conn.stream.eintr_budget = 1;
             let calls0 = conn.stream.write_calls;
             let r = conn.try_write();
             if qh == qt {
@@ -806,7 +813,9 @@ pub(crate) fn try_write_hook<T: Read + Write + ScmSocket>(c: &mut HttpConnection
             None => return Err(ConnectionError::InvalidWrite),
         }
     }
-    let ans: u8 = unsafe { WRITE_PLAN[fd] };
+    // the planned answer applies to the first write on this descriptor in a step; any further
+    // write is accepted completely (so that a retry loop terminates and can be observed)
+    let ans: u8 = if crate::verif_mock::world().writes[fd] == 1 { unsafe { WRITE_PLAN[fd] } } else { 0 };
     match ans {
         // everything accepted
         0 => {
@@ -895,7 +904,7 @@ fn feed_slice(conn: &HttpConnection<Mock>, bytes: &[u8], fds: &[RawFd]) {
     conn.stream.nfds.set(fds.len());
 }
 
-// @harness props=C01,C11,C12,C03 tiers=quick:B=8,M=0|B=8,M=1|B=8,M=2|B=8,M=3|B=8,M=6|B=8,M=7;thorough:B=8,M=0|B=8,M=1|B=8,M=2|B=8,M=3|B=8,M=4|B=8,M=5|B=8,M=6|B=8,M=7|B=16,M=0|B=16,M=1|B=16,M=2|B=16,M=6|B=16,M=7 unwind=B+4 cap=2400 mem=4 covers=1
+// @harness props=C01,C11,C12,C03 tiers=quick:B=8,M=0|B=8,M=1|B=8,M=2|B=8,M=3|B=8,M=6,MEM=10|B=8,M=7;thorough:B=8,M=0|B=8,M=1|B=8,M=2|B=8,M=3|B=8,M=4|B=8,M=5|B=8,M=6,MEM=10|B=8,M=7|B=16,M=0|B=16,M=1|B=16,M=2|B=16,M=6,MEM=14|B=16,M=7 unwind=B+4 cap=2400 mem=2 covers=1
 // @fn HttpConnection::try_read HttpConnection::read_and_parse HttpConnection::reset_parser HttpConnection::read_bytes HttpConnection::recv_with_fds HttpConnection::parse_request_line HttpConnection::parse_headers HttpConnection::parse_body HttpConnection::shift_buffer_left
 // @stubs std::string::String::from_utf8_lossy
 // @claim whole try_read on structured reads: (C12) a read that completes a request hands it every descriptor held or received so far, in arrival order, and keeps none; a second request completed by the same read gets none; a read that completes nothing keeps them; (C01) after a completed request the parser continues at the next byte in the same call, a trailing partial line is carried; (C11) whenever try_read returns a ParseError the parser is exactly in the state of a new connection (state, pending request, carried bytes, partial body, counter, held descriptors), requests completed earlier in the same read stay queued; exactly one receive per call
@@ -1014,7 +1023,7 @@ fn tr_single() {
     std::mem::forget(conn);
 }
 
-// @harness props=C11,C12 props_thorough=C03 tiers=quick:B=8,M=0|B=8,M=1|B=8,M=2;thorough:B=16,M=0|B=16,M=1|B=16,M=2 unwind=B+4 cap=900 mem=4 covers=1
+// @harness props=C11,C12 props_thorough=C03 tiers=quick:B=8,M=0|B=8,M=1|B=8,M=2;thorough:B=16,M=0|B=16,M=1|B=16,M=2 unwind=B+4 cap=900 mem=2 covers=1
 // @fn HttpConnection::reset_parser
 // @claim the reset that try_read performs after a parse error leaves exactly the state of a new connection from every parser state: state WaitingForRequestLine, no pending request, read cursor 0, no partial body, counter 0, no descriptor held (each held descriptor closed once); queued requests and responses untouched
 // @bounds parser shape per query M (0 request line with an arbitrary carried prefix, 1 headers with an arbitrary pending request, 2 body with 2 accumulated bytes and an arbitrary counter); 2 descriptors held; window B
